@@ -75,7 +75,7 @@ class Tr:
             if t.count('%') != t.count('%s') or t.count('%s') != len(args):
                 raise Untranslatable('format string other than %s placeholders')
             return '(EFormat (list_ascii_of_string %s) [%s])' % (cstring(t), '; '.join(self.expr(a) for a in args))
-        if isinstance(e, ast.List):
+        if isinstance(e, (ast.List, ast.Tuple)):
             return '(EListLit [%s])' % '; '.join(self.expr(x) for x in e.elts)
         if isinstance(e, ast.Compare):
             if len(e.ops) != 1:
@@ -131,6 +131,8 @@ class Tr:
                     return self.expr(e.args[0])
                 if f.id == 'isinstance' and len(e.args) == 2 and isinstance(e.args[1], ast.Name) and e.args[1].id == 'int':
                     return '(EIsInt %s)' % self.expr(e.args[0])
+                if f.id == 'isinstance' and len(e.args) == 2 and isinstance(e.args[1], ast.Name) and e.args[1].id == 'dict':
+                    return '(EIsDict %s)' % self.expr(e.args[0])
                 if f.id == 'list' and len(e.args) == 1:
                     a = e.args[0]
                     if isinstance(a, ast.Call) and isinstance(a.func, ast.Attribute) and a.func.attr == 'keys' and not a.args:
@@ -144,6 +146,8 @@ class Tr:
             if dotted(f) in ('np.mod', 'numpy.mod') and len(e.args) == 2 and not e.keywords:
                 return '(EMod %s %s)' % (self.expr(e.args[0]), self.expr(e.args[1]))
             if isinstance(f, ast.Attribute):
+                if f.attr == 'join' and len(e.args) == 1 and isinstance(f.value, ast.Constant) and isinstance(f.value.value, str):
+                    return '(EJoin (list_ascii_of_string %s) %s)' % (cstring(f.value.value), self.expr(e.args[0]))
                 if f.attr == 'lower' and not e.args:
                     return '(ELower %s)' % self.expr(f.value)
                 if f.attr == 'isspace' and not e.args:
@@ -215,6 +219,13 @@ class Tr:
             if s.orelse:
                 raise Untranslatable('for-else')
             return '(SFor %s %s %s)' % (self.target(s.target), self.expr(s.iter), self.block(s.body))
+        if isinstance(s, ast.Try):
+            # try: BODY except E: raise ...   — whatever BODY raises, an exception leaves the statement: same as BODY
+            ok = (not s.orelse and not s.finalbody and s.handlers and
+                  all(len(h.body) == 1 and isinstance(h.body[0], ast.Raise) for h in s.handlers))
+            if not ok:
+                raise Untranslatable('try-statement whose handlers do more than raise')
+            return self.block(s.body)
         if isinstance(s, ast.With):
             # `with open(filename) as fh: content = fh.readlines()` — the lines of the file are an INPUT of the translated
             # function (variable "content"); nothing else may happen inside the with-block
@@ -258,6 +269,8 @@ FUNCS = [
     ('g_clear_phosphosites', 'localcider/backend/sequence.py', 'Sequence', 'clear_phosphosites', []),
     ('g_set_palette', 'localcider/backend/sequence.py', 'Sequence', 'set_HTMLColorResiduePalette', ['data.aminoacids.', 'aminoacids.']),
     ('g_get_html', 'localcider/backend/sequence.py', 'Sequence', 'get_HTMLColorString', []),
+    ('g_reduce_user', 'localcider/backend/sequenceComplexity.py', 'SequenceComplexity', 'reduce_alphabet', [''],
+     'len(userAlphabet) > 0'),
     ('g_parseSeqFile', 'localcider/backend/seqfileparser.py', 'SequenceFileParser', 'parseSeqFile', []),
 ]
 
@@ -268,9 +281,15 @@ def generate(repo):
                'Import ListNotations.', 'Local Open Scope string_scope.'])
     data = literal_dicts(os.path.join(repo, 'localcider/backend/data/aminoacids.py'))
 
-    def one(name, rel, cls, fn, prefixes):
+    def one(name, rel, cls, fn, prefixes, select=None):
         def thunk():
             node = find_func(parse_file(os.path.join(repo, rel)), fn, cls)
+            if select is not None:          # translate one top-level if-block of the function (its body), chosen by its test
+                hits = [n for n in node.body if isinstance(n, ast.If) and ' '.join(ast.unparse(n.test).split()) == select]
+                if len(hits) != 1 or hits[0].orelse:
+                    raise Untranslatable('block `if %s:` not found exactly once (without else)' % select)
+                blk = ast.FunctionDef(name=node.name, args=node.args, body=hits[0].body, decorator_list=[])
+                node = blk
             consts = {}
             for p in prefixes:
                 for k, v in data.items():
@@ -281,6 +300,6 @@ def generate(repo):
             return ('(* %s.%s(%s) in %s *)\nDefinition %s : stmt :=\n  %s.\nDefinition %s_assigned : list string := [%s].'
                     % (cls, fn, ', '.join(params), rel, name, term, name, '; '.join(cstring(x) for x in tr.assigned)))
         return thunk
-    for name, rel, cls, fn, prefixes in FUNCS:
-        out.add(name, one(name, rel, cls, fn, prefixes))
+    for entry in FUNCS:
+        out.add(entry[0], one(*entry))
     return out
